@@ -1,5 +1,6 @@
 (* Single entry point of the executable models: function id + argument tree -> result tree. *)
 From PV Require Export Model.ComponentsX Model.EnginesX Model.SelectX.
+From PV Require Export Model.CatalogX.
 From PV Require Model.RemoteJob.   (* not exported: its short names (step, run, status, ...) stay qualified *)
 
 Definition dispatch (f : Z) (x : sx) : sx :=
@@ -11,5 +12,7 @@ Definition dispatch (f : Z) (x : sx) : sx :=
   (* 1700 = the code as it is now (both C17 repairs are in /repo: fix commits 3528201e, a6e53956);
      1703 = the code before the repairs (kept for the _refuted theorems and their witnesses) *)
   | 1700 => RemoteJob.x_rj_patch x | 1701 => RemoteJob.x_rj_patch x | 1702 => RemoteJob.x_rj_spec x | 1703 => RemoteJob.x_rj_code x
+  (* C20: catalog gates in their towers, parametrised gates, controlled-rotation block, logical action on a dyadic grid *)
+  | 2000 => x_cat_gate x | 2001 => x_logical_zi x | 2002 => x_param_gate x | 2003 => x_crot x
   | _ => L []
   end%Z.
